@@ -29,11 +29,16 @@ RowSkips == {NoSkip, <<Bd("inc", 1), Bd("unb", 0)>>, <<Bd("inc", 0), Bd("exc", 1
 Init == stage = "init" /\ cur = [none |-> TRUE]
 OneRow == \E r \in RowsA, b \in BiasA, o \in Opts, p \in Precs, ap \in BOOLEAN :
     /\ stage = "init"
-    /\ cur' = [rows |-> <<r>>, bias |-> <<b>>, opt |-> o, prec |-> p, aspoly |-> ap] /\ stage' = "row"
+    /\ cur' = [rows |-> <<r>>, bias |-> <<b>>, opt |-> o, prec |-> p, aspoly |-> ap, tiny |-> FALSE] /\ stage' = "row"
 ManyRows == \E m \in Mats, rs \in RowSkips, o \in {x \in Opts : x.axes_lo = NoSkip[1] /\ x.sort = 0}, ap \in BOOLEAN :
     /\ stage = "init"
-    /\ cur' = [rows |-> m, bias |-> <<V(8), V(-20), NZ, V(1)>>, opt |-> [o EXCEPT !.rows_lo = rs[1], !.rows_hi = rs[2]], prec |-> 2, aspoly |-> ap] /\ stage' = "row"
-Next == OneRow \/ ManyRows
+    /\ cur' = [rows |-> m, bias |-> <<V(8), V(-20), NZ, V(1)>>, opt |-> [o EXCEPT !.rows_lo = rs[1], !.rows_hi = rs[2]], prec |-> 2, aspoly |-> ap, tiny |-> FALSE] /\ stage' = "row"
+\* the same rows divided by 1e17 (all coefficients far below the machine epsilon, none zero unless zero before):
+\* normalised polytope view, whose output depends only on ratios
+TinyRow == \E r \in {x \in RowsA : ~AllZero(x)}, b \in BiasA, o \in {x \in Opts : x.normalize /\ x.axes_lo = NoSkip[1]}, p \in {2} :
+    /\ stage = "init"
+    /\ cur' = [rows |-> <<r>>, bias |-> <<b>>, opt |-> o, prec |-> p, aspoly |-> TRUE, tiny |-> TRUE] /\ stage' = "row"
+Next == OneRow \/ ManyRows \/ TinyRow
 Spec == Init /\ [][Next]_vars
 
 \* C19 at design level: what the L1 model prints satisfies the faithfulness formulas
@@ -41,5 +46,5 @@ Faithful == stage = "row" => BlockOK(BlockToks(cur.rows, cur.bias, Den, cur.prec
 
 Emit == (EMIT /\ stage' = "row") =>
     PrintT("SCRIPT " \o ToJson([fam |-> "format", kind |-> "rows", den |-> Den, rows |-> cur'.rows, bias |-> cur'.bias, options |-> cur'.opt, prec |-> cur'.prec,
-                                as |-> IF cur'.aspoly THEN "poly" ELSE "func"]))
+                                as |-> IF cur'.aspoly THEN "poly" ELSE "func", tiny |-> cur'.tiny]))
 =============================================================================
